@@ -188,7 +188,7 @@ class Tracker:
 
         U, V = force.velocity(X, Y, Z)
         X1, Y1 = RKstep(X, Y, U, V, 0.5, dtdx, dtdy)
-        clip(X, Y, self.xmin, self.xmax, self.ymin, self.ymax)
+        clip(X1, Y1, self.xmin, self.xmax, self.ymin, self.ymax)
 
         return force.velocity(X1, Y1, Z, fractional_step=0.5)
 
